@@ -52,6 +52,7 @@ def flat_prog(
     ret_index_rate: float = 0.0,
     mutable_setup_rate: float = 0.0,
     many_args_rate: float = 0.0,
+    same_name_rate: float = 0.1,
 ) -> Dict[str, Any]:
     """A call-only program: every statement is one call of a constructor function, depending on earlier
     sites through positional args / kwargs / activation flags.  Acyclic by construction."""
@@ -90,6 +91,8 @@ def flat_prog(
                 if prev:
                     g = draw(st.sampled_from(prev))
                     spec["qual"] = fns[g].get("qual", g)
+                    if draw(st.booleans()):
+                        spec["bound"] = fns[g]["bound"] = True  # ... as the same method of two instances
             if seq_rate and draw(st.floats(0, 1)) < seq_rate:
                 spec["seq"] = True
             if i in setup_idx:
@@ -121,6 +124,8 @@ def flat_prog(
                 spec["kind"], spec["val"] = "const", draw(st.sampled_from([None, None, 0, ""]))
             if chance(draw, 0.08):
                 spec["partial"] = True  # the node function is a functools.partial object
+            elif chance(draw, 0.06):
+                spec["bound"] = True  # the node function is a bound method
             fns[fn] = spec
         # dependencies
         if i in setup_idx:
@@ -198,7 +203,7 @@ def flat_prog(
         body.append({"k": "call", "fn": fn, "site": site(i), "mark": mark, "args": args, "kwargs": kwargs,
                      "active": active, "unpack": None, "tags": [], "out": f"v{i}"})
     plain_fns = [g for g, sp in fns.items() if "qual" not in sp or sp["qual"] == f"mk.<locals>.{g}"]
-    if len(plain_fns) >= 2 and chance(draw, 0.1):
+    if len(plain_fns) >= 2 and same_name_rate and chance(draw, same_name_rate):
         # kind of callable: two closures / methods that share their __name__ ("step") while their __qualname__ - which
         # is what tawazi names the node after - differs
         for g in plain_fns[:2]:
